@@ -459,7 +459,13 @@ def run(ck):
 
     # correspondence: the model evaluated inside Coq on the same graphs
     model_ok = all(built.get(x) for x in MODEL)
-    evald = [i for i, c in enumerate(cases) if c["obs"].get("v") != "crash"]
+    # vm_compute of the list-based model costs ~n^3: graphs with more than 100 nodes (thorough tier only)
+    # are checked against the independent oracles above but not evaluated in the model
+    limit = 100
+    evald = [i for i, c in enumerate(cases)
+             if c["obs"].get("v") != "crash" and len(case_graph(c)[0]) <= limit]
+    ck.coverage["model_not_evaluated_over_%d_nodes" % limit] = sum(
+        1 for c in cases if len(case_graph(c)[0]) > limit)
     if evald and model_ok:
         mism = coq_mismatches(ck, cases, evald, "cases")
         if mism is not None:
